@@ -27,7 +27,8 @@ pub fn all() -> Vec<Check> {
         Check {
             prop: "C02",
             level: "exploration",
-            parts: vec![part(A, 0, 2_000_000, 100_000_000, "serve() over fault-free simulated entities; body identity by entity offsets")],
+            parts: vec![part(A, 0, 2_000_000, 100_000_000, "serve() over fault-free simulated entities; body identity by entity offsets"),
+                        part(D, 2, 40_000, 2_000_000, "serve() over the crate's own ChunkedReadFile: sequences of single- and multi-range responses on one entity, body bytes vs the file bytes the headers name")],
             rule: "as C01; non-trivial = a 200 or 206 whose body was compared with the entity bytes its headers name",
             assumptions: vec![],
         },
